@@ -11,7 +11,7 @@ def OpGate (cfg : Cfg) (ts : Int) : Ev → Prop
   | .opRej _ _ m _ closed => ∃ mc, cfg.markets[m]? = some mc ∧ marketOpen cfg mc ts = !closed
   | .openCb _ m => ∃ mc, cfg.markets[m]? = some mc ∧ mc.openCb = true ∧ marketOpen cfg mc ts = true
   | .set _ m _ o _ => ∃ mc, cfg.markets[m]? = some mc ∧ o = marketOpen cfg mc ts
-  | _ => True
+  | _ => True          -- in particular operations that are not `write_func`s are not gated
 
 theorem gate_nil {P : Ev → Prop} : ∀ e ∈ ([] : List Ev), P e := fun _ he => nomatch he
 
@@ -47,27 +47,31 @@ theorem doOp_gate (cfg : Cfg) (ts : Int) (h : Hook) (op : OpSpec) (st : St) (hin
     obtain ⟨mc, hmc, hopen⟩ := openInv_lookup hinv hs
     simp only []
     split
-    · rename_i hc
-      have ho : s.isOpen = false := by simpa using hc
-      refine ⟨?_, hinv⟩
-      intro e he
-      rw [List.mem_singleton.mp he]
-      exact ⟨mc, hmc, by rw [hopen, ho]; rfl⟩
-    · rename_i hc
-      have ho : s.isOpen = true := by simpa using hc
-      split
-      · refine ⟨?_, hinv⟩
+    · split
+      · exact ⟨fun e he => by rw [List.mem_singleton.mp he]; trivial, hinv⟩
+      · exact ⟨fun e he => by rw [List.mem_singleton.mp he]; trivial, hinv⟩
+    · split
+      · rename_i hc
+        have ho : s.isOpen = false := by simpa using hc
+        refine ⟨?_, hinv⟩
         intro e he
         rw [List.mem_singleton.mp he]
         exact ⟨mc, hmc, by rw [hopen, ho]; rfl⟩
-      · refine ⟨?_, ?_⟩
-        · intro e he
+      · rename_i hc
+        have ho : s.isOpen = true := by simpa using hc
+        split
+        · refine ⟨?_, hinv⟩
+          intro e he
           rw [List.mem_singleton.mp he]
-          exact ⟨mc, hmc, by rw [hopen, ho]⟩
-        · show OpenInv cfg ts (st.ms.set op.m { s with hasUpdate := true })
-          unfold OpenInv
-          rw [map_isOpen_set st.ms op.m s hs]
-          exact hinv
+          exact ⟨mc, hmc, by rw [hopen, ho]; rfl⟩
+        · refine ⟨?_, ?_⟩
+          · intro e he
+            rw [List.mem_singleton.mp he]
+            exact ⟨mc, hmc, by rw [hopen, ho]⟩
+          · show OpenInv cfg ts (st.ms.set op.m { s with hasUpdate := true })
+            unfold OpenInv
+            rw [map_isOpen_set st.ms op.m s hs]
+            exact hinv
 
 theorem runOps_gate (cfg : Cfg) (ts : Int) (h : Hook) : ∀ (ops : List OpSpec) (st : St), OpenInv cfg ts st.ms →
     (∀ e ∈ (runOps ts h ops st).1, OpGate cfg ts e) ∧ OpenInv cfg ts (runOps ts h ops st).2.ms
